@@ -184,7 +184,7 @@ class Session:
         for e in self.plan["texts"]:
             if e.get("pulses"):
                 self.ensure_module(e["pulses"])
-        if any(e.get("pulses") and not e["pulses"]["relative"] for e in self.plan["texts"]):
+        if any(e.get("pulses") and not e["pulses"]["relative"] and e["pulses"].get("on_path", True) for e in self.plan["texts"]):
             sys.path.insert(0, self.scratch)
             self._path_added = True
         import importlib
@@ -905,6 +905,15 @@ def plan_c16(run_seed):
             e["prog"]["reg"] = None  # programs without a register
             e["exec"] = False
         texts.append(e)
+    # a module that exists in the import directory but is named absolutely while that
+    # directory is not on sys.path: it must stay unfindable whatever relative imports
+    # (successful or failed) happened before
+    for i, e in enumerate(list(texts)):
+        if e.get("pulses") and e["pulses"]["relative"] and t.chance(0.35):
+            e2 = copy.deepcopy(e)
+            e2["pulses"] = {"mod": "%s_x%d" % (modbase, i), "relative": False, "kind": "good", "j": 0, "on_path": False}
+            texts.append(e2)
+            break
     # F12 scenario: the same module name imported relatively (fails) and absolutely
     for i, e in enumerate(list(texts)):
         if e.get("pulses") and e["pulses"]["kind"] == "raises" and e["pulses"]["relative"] and t.chance(0.7):
@@ -1099,7 +1108,9 @@ def absolute_import_of_relative_module(S, text):
     module whose import fails (kind 'raises') is not waived: that is F12."""
     import re
 
-    rel_ok = {e["pulses"]["mod"] for e in S.plan["texts"] if e.get("pulses") and e["pulses"]["relative"] and e["pulses"]["kind"] in ("good", "package")}
+    # (a corruption may turn any import into a relative one, so every good scratch module
+    # counts, whichever way the plan's own texts import it)
+    rel_ok = {e["pulses"]["mod"] for e in S.plan["texts"] if e.get("pulses") and e["pulses"]["kind"] in ("good", "package")}
     out = []
     for m in re.finditer(r"from\s+([A-Za-z_][A-Za-z0-9_.]*)\s+usepulses", text):
         if m.group(1).split(".")[0] in rel_ok:
